@@ -13,6 +13,7 @@ NONEVAL = z3.Const('NoneVal', ValS)  # the value ``None`` when used as a default
 EVALIN = z3.Function('evalin', ValS, RefS, ValS)      # value of an annotation expression in a function's globals
 EVALIN_AT = z3.Function('evalin_at', ValS, RefS, z3.IntSort(), ValS)      # ... after the globals were rebound (epoch > 0): module globals are mutable
 EPOCH = [0]
+TRUTHY = z3.Function('truthy', ValS, z3.BoolSort())      # truth value of a default / annotation object
 
 
 class Infeasible(Exception):
@@ -242,7 +243,12 @@ class MV:
         return 'MV(%s,%s)' % (self.has, self.val)
 
     def __bool__(self):
-        raise EngineLimit('truth value of a default/annotation value')
+        # ``if param.default:`` - absent means the class inspect.Parameter.empty (true); present: the truth value of an arbitrary
+        # object, an uninterpreted predicate of the value (None is false)
+        c = _Cur.ctx
+        if c is None:
+            raise EngineLimit('truth value of a default/annotation value outside a path')
+        return c.decide(z3.If(self.has, z3.And(self.val != NONEVAL, TRUTHY(self.val)), z3.BoolVal(True)))
 
 
 def to_mv(x):
